@@ -1,5 +1,6 @@
 import ProductMD.Model.Nvra
 import ProductMD.Generated.Tables
+import ProductMD.Generated.BuilderFacts
 /-!
 The three manifest builders: `Rpms.add`, `Modules.add` (+ `_check_uid`, `parse_uid`), `ExtraFiles.add`,
 and `ExtraFiles.dump_for_tree` / `_relative_to`   (productmd/rpms.py, modules.py, extra_files.py).
@@ -84,7 +85,10 @@ def checkNevra (nevra : Str) : Except Err (Str × Nvra) :=
     | .error _ => .error .valueError
     | .ok d => .ok (d.canonical, d)
 
-def srcArches : List Str := [lit "src", lit "nosrc"]
+/-- `if arch in ["src", "nosrc"]`: the literal list in the source, regenerated on every run -/
+def srcArches : List Str := Gen.RPMS_ADD_SOURCE_ARCHES
+/-- `nevra_dict["arch"] in ("src", "nosrc")`: likewise -/
+def nevraSrcArches : List Str := Gen.RPMS_ADD_NEVRA_SOURCE_ARCHES
 
 /-- what is filed where: `(srpm key, rpm key, record)` -/
 structure RpmsPlan where
@@ -107,7 +111,7 @@ def rpmsCheck (a : RpmsArgs) : Except Err RpmsPlan :=
     | .ok (nevra, d) =>
       if a.category == lit "source" && a.srpm.isSome then .error .valueError
       else if a.category != lit "source" && a.srpm.isNone then .error .valueError
-      else if (a.category == lit "source") != (srcArches.contains d.arch) then .error .valueError
+      else if (a.category == lit "source") != (nevraSrcArches.contains d.arch) then .error .valueError
       else
         let sigkey := a.sigkey.map Str.lowerAscii
         let srpm : Except Err Str :=
